@@ -755,6 +755,7 @@ let model_stack_trace (args0 : string) (impl_evs : event list) : string option =
     let scripts_s = scripts in
     let give_up = (match S.split_on_char ',' flags with _ :: g :: _ -> g = "1" | _ -> false) in
     let foreign = L.mem "foreign0" (S.split_on_char ',' flags) in
+    let sha = (match S.split_on_char ',' flags with x :: _ -> x = "1" | _ -> false) in
     let split_ops (sc : string) : string list =
       let buf = Buffer.create 16 and out = ref [] and depth = ref 0 in
       S.iter (fun ch ->
@@ -765,7 +766,6 @@ let model_stack_trace (args0 : string) (impl_evs : event list) : string option =
       L.rev !out in
     let scripts = L.map (fun sc -> L.map parse_apiop (split_ops sc)) (S.split_on_char ';' scripts) in
     ignore scripts_s;
-    if foreign then None else
     Some (S.concat " " (
       (* initial tables and the size oracle come from the implementation's snapshots *)
       let sizes : (int, coq_N) Hashtbl.t = Hashtbl.create 16 in
@@ -773,7 +773,8 @@ let model_stack_trace (args0 : string) (impl_evs : event list) : string option =
       let init = match impl_evs with ESnap s :: _ -> s | _ -> { sn_list = None; sn_tabs = []; sn_files = [] } in
       let tabs = L.filter_map (fun (n, st) -> match st with
           | TGood i -> Some (n, { StackProto.tf_min = i.ti_min; tf_max = i.ti_max; tf_txs = i.ti_txs;
-                                  tf_size = (try Hashtbl.find !size_table (int_of_nat n) with Not_found -> N0) })
+                                  tf_size = (try Hashtbl.find !size_table (int_of_nat n) with Not_found -> N0);
+                                  tf_hash = sha })
           | TBad -> None) init.sn_tabs in
       let sched = L.filter_map (function
           | ECall (h, _) -> Some (StackProto.Step (h, None))
@@ -783,7 +784,9 @@ let model_stack_trace (args0 : string) (impl_evs : event list) : string option =
           | _ -> None) impl_evs in
       let oracle n = try Hashtbl.find !size_table (int_of_nat n) with Not_found -> N0 in
       let attempts = if give_up then nat_of_int 1 else nat_of_int 50 in
-      normalise (StackProto.trace_of oracle attempts tabs scripts sched)))
+      (* handle 0 of a foreign0 scenario is configured with the other hash type *)
+      let hscripts = L.mapi (fun i sc -> ((if foreign && i = 0 then not sha else sha), sc)) scripts in
+      normalise (StackProto.trace_of oracle attempts tabs hscripts sched)))
   | _ -> None
 
 let () = register "stackrun" (fun args ->
